@@ -4,7 +4,7 @@ BASE_NOTE = ("Trusted: Coq 8.16.1 kernel (vm_compute for witnesses/examples only
              "the correspondence harness (generators, exact-rational canonicalisation, observation mapping); CPython 3.12/numpy "
              "float64 semantics on the exact (dyadic) input families. The theorems are about the Gallina model; the tie to /repo/src "
              "is the correspondence run on every check (sampled, not proved). ")
-SOURCE_COMMITS = ["bc49a1c", "e3a7f92", "9ed7728", "007ee91", "c29e4c1", "17a47e5", "867807e", "949de5f", "5cc174a", "d64e197", "df761a4"]   # "fix:" commits only (no guarded hooks exist)
+SOURCE_COMMITS = ["bc49a1c", "e3a7f92", "9ed7728", "007ee91", "c29e4c1", "17a47e5", "867807e", "949de5f", "5cc174a", "d64e197", "df761a4", "5d29398", "7a3c11a"]   # "fix:" commits only (no guarded hooks exist)
 NOTES = ("Every check: (1) rebuilds the Coq development incrementally and re-checks coq/Props/<id>.v (grep gate for Admitted/Axiom/...); "
          "(2) runs physt from /repo/src and the extracted model on the same seeded cases; (3) applies the extracted check_<id> to the "
          "implementation's observation. VIOLATION lines carry a replay file; 'no-failing-input-found' is appended when only the "
@@ -79,6 +79,16 @@ CLAIMED = {
          "histograms built from in-range rows the projection is compared with direct construction from the kept columns."),
    note=BASE_NOTE + "Modelled, not verified: numpy sum(axis=tuple)/cumsum/T by their documented meaning; the special-class "
         "projection map of transformed histograms is C15's subject."),
+ "C11": dict(
+   technique="Coq proofs (slice conservation, contiguity, index normalisation, sorted index arrays, pointwise N-d selection) + extracted-model correspondence",
+   text=("Theorems: for every start/stop (negative, None, out of range) a non-empty [start:stop] slice keeps total + underflow + "
+         "overflow; step-1 slices are contiguous ranges; integer indices normalise as in numpy and are refused out of range; index "
+         "arrays are taken as a sorted permutation; every cell of an N-d selection is a source cell. The executable model of "
+         "Histogram1D.__getitem__ / HistogramND.select/__getitem__ is compared with physt on every generated index expression "
+         "(ints, slices with steps, masks, index arrays, tuples incl. too many entries), including bins, names, under/overflow, "
+         "refusals and 'source never modified'."),
+   note=BASE_NOTE + "Degenerate results (empty selection, duplicated index-array entries) are outside the property and only "
+        "recorded. numpy indexing itself is compared, not verified."),
  "C10": dict(
    technique="Coq proof (induction over arbitrary frequency lists / N-d arrays) + extracted-model correspondence",
    text=("Theorems (all sizes, all dimensions, closed under the global context): the min_frequency loop always yields a gap-free "
